@@ -432,8 +432,25 @@ def check_plot_diagrams(project: Project, rep):
             if b_inf is not None:
                 repl = [x for x in sym.walk(ye) if x[0] == "ite" and x[1][0] == "fn" and x[1][1] == "isinf"]
                 if repl and any(sym.equal(r[2], b_inf[1], 1e-9) for r in repl):
-                    rep.discharged("PL-DGM", fi, ev["node"], f"{tag}: infinite entries of `{nm}` are placed on the ∞-line "
-                                                             f"ordinate before plotting")
+                    # with some deaths infinite: the marker of such a point sits exactly on the ∞-line, every other marker
+                    # where it would be without the replacement
+                    def some_inf(pt_, name, idx):
+                        if name == nm and len(idx) == 2 and idx[1] == 1 and pt_.rng.random() < 0.5:
+                            return float("inf")
+                        return None
+                    want_y = sym.ITE(sym.fn("isinf", sy), b_inf[1], sy)
+                    oki, wi = symeval.equivalent(ye, want_y, tol=1e-6, input_fn=some_inf, trials=40)
+                    if oki is False:
+                        rep.refuted("PL-DGM", fi, ev["node"],
+                                    f"{tag}: a point of `{nm}` with an infinite death is not drawn on the ∞-line (its ordinate is "
+                                    f"{sym.show(ye)[:140]}): the replacement by the ∞-line ordinate and the "
+                                    f"{'lifetime conversion' if lifetime else 'plotting'} are applied in the wrong order; witness {wi}",
+                                    construct=f"{qual}: inf replacement for {nm} ({tag})")
+                    elif oki is None:
+                        rep.unmodelled("PL-DGM", fi, ev["node"], f"{tag}: cannot evaluate the ordinate with infinite deaths ({wi})")
+                    else:
+                        rep.discharged("PL-DGM", fi, ev["node"], f"{tag}: infinite entries of `{nm}` are placed on the ∞-line "
+                                                                 f"ordinate before plotting")
                 else:
                     rep.refuted("PL-DGM", fi, ev["node"], f"{tag}: infinite deaths of `{nm}` are not replaced by the ∞-line "
                                                           f"ordinate before the scatter",
